@@ -151,7 +151,8 @@ type World struct {
 	addrOf   map[uint64]string
 	sdSent   map[string]time.Time // addr -> when its discovery update was forwarded to the explorer
 	probeOK  map[string]time.Time // addr -> first successful probe
-	cfgVer   int
+	cfgSem   int // semantic revision of the coordinator's configuration
+	cfgCos   int // cosmetic revision
 	hist     []string
 	// fault plan
 	loseNextPost   map[string]string    // host -> "before" | "after"
@@ -230,7 +231,7 @@ func New(tp *core.Tape, e *core.Env, sc *WScenario) (*World, error) {
 	}
 	w.CL = NewCluster(base, w.Net, w.TG, sc.Replicas, sc.InitShards, sc.DeletePVC)
 	w.CL.Instant = sc.InstantHead
-	w.CL.ConfigText = func() string { return sc.ConfigText(w.cfgVer) }
+	w.CL.ConfigText = func() string { return sc.ConfigText(w.cfgSem, w.cfgCos) }
 	w.CL.FileModeOf = func(rep, ord int) bool { return sc.FileMode && (rep+ord)%2 == 0 }
 	w.CL.OffsetFor = func(key string) time.Duration {
 		h := uint64(1469598103934665603)
@@ -262,7 +263,7 @@ func New(tp *core.Tape, e *core.Env, sc *WScenario) (*World, error) {
 		w.TD.ApplyConfig,
 		func(cfg *prom.ConfigInfo) error { return nil },
 	)
-	if err := w.Cfg.ReloadFromRaw([]byte(sc.ConfigText(0))); err != nil {
+	if err := w.Cfg.ReloadFromRaw([]byte(sc.ConfigText(0, 0))); err != nil {
 		return nil, fmt.Errorf("coordinator rejects its configuration: %w", err)
 	}
 	w.SD = make(chan map[string][]*targetgroup.Group, 16)
@@ -431,7 +432,7 @@ func (w *World) countScrape(host, pod string) {
 // that coordination cycles and target updates overlap scrapes.
 func (w *World) RunScrapes(now time.Time) {
 	for _, p := range w.CL.AllPods() {
-		if !p.Running || p.Prom == nil {
+		if !p.Running || p.Prom == nil || now.Before(p.StalledUntil) {
 			continue
 		}
 		for _, t := range p.Prom.Due(now) {
